@@ -89,6 +89,11 @@ const NASTY: &[char] = &[
     ' ', '#', '(', ')', ',', ';', '=', '<', '>', '!', '~', '-', '+', '*', '/', '%', '&', '|', '^', '0', '1', '9', 'x', 'X', 'b', 'c', 'C', 'z', 'a', 'e', 'n', 'd', '_',
 ];
 
+/// characters that one definition of white space or another includes (ASCII, Latin-1, Unicode Zs / Zl / Zp, BOM, zero width)
+const WSLIKE: &[char] = &[
+    ' ', '\t', '\r', '\x0c', '\x0b', '\u{85}', '\u{a0}', '\u{1680}', '\u{2000}', '\u{2003}', '\u{200a}', '\u{200b}', '\u{2028}', '\u{2029}', '\u{202f}', '\u{205f}', '\u{3000}', '\u{feff}', '\x1c', '\x1f',
+];
+
 const VOCAB: &[&str] = &[
     "let", "loop", "end", "while", "repeat", "bits", "declare", "resetRandom", "program", "init", "memory", "def", "call", "a", "b", "X", "C", "Z", "x", "c", "random", "ite", "signExt", "foo",
     "0", "1", "7", "08", "0x1F", "0xg", "0b101", "0b2", "017", "9223372036854775807", "9223372036854775808", "18446744073709551616", "65", "(", ")", ",", ";", "=", "!=", "<", ">", "<=", ">=", "<<",
@@ -137,7 +142,35 @@ pub fn parsegen(prop: &str, seed: u64, runs: usize) -> Vec<J> {
                 let (header, prog) = valid_program(s);
                 let lay = Layout::random(s);
                 let printed = print_test(&header, &prog, &lay);
-                match run % 5 {
+                match if run % 7 == 6 { 5 + run % 2 } else { run % 5 } {
+                    5 => {
+                        // a header whose names are separated by whatever some definition of white space includes
+                        // (the header lexer's own definition is space, tab, CR, FF; everything else belongs to a name)
+                        let mut t = String::new();
+                        let n = rng.gen_range(1..5);
+                        for k in 0..n {
+                            t.push_str(["A", "B_out", "Q1", "é", "x9", "_", "C"].choose(&mut rng).unwrap());
+                            if k + 1 < n || rng.gen_bool(0.3) {
+                                for _ in 0..rng.gen_range(1..3) {
+                                    t.push(*WSLIKE.choose(&mut rng).unwrap());
+                                }
+                            }
+                        }
+                        // the entries of one row, counted by the property's definition of a blank
+                        let names = t.split(|c| c == ' ' || c == '\t' || c == '\r' || c == '\x0c' || c == '\n').filter(|w| !w.is_empty()).count();
+                        t.push('\n');
+                        let m = if rng.gen_bool(0.8) { names } else { names + 1 };
+                        t.push_str(&vec!["1"; m].join(" "));
+                        if rng.gen_bool(0.7) {
+                            t.push('\n');
+                        }
+                        push(&mut out, prop, &t, None, 0, "white-space-like characters in the header")
+                    }
+                    6 => {
+                        // the same characters in place of blanks in the statements
+                        let t: String = printed.text.chars().map(|c| if c == ' ' && rng.gen_bool(0.15) { *WSLIKE.choose(&mut rng).unwrap() } else { c }).collect();
+                        push(&mut out, prop, &t, None, 0, "white-space-like characters in the statements")
+                    }
                     0 => {
                         let mut rl = vec![];
                         row_lines_of(&prog, &printed, &mut rl);
@@ -320,15 +353,39 @@ pub fn parsegen(prop: &str, seed: u64, runs: usize) -> Vec<J> {
         "C15" => {
             // determinism: the same text parsed again and again (each HashMap instance has its own hash seed) must give
             // equal tests with the signals in the same order, every time equal to what the specification says
-            for _ in 0..runs {
+            for i in 0..runs {
                 let s: u64 = top.gen();
                 let mut g = Gen::new(s, Knobs { max_virtuals: 5, p_c: 0.1, p_device: 0.4, bidir: true, max_stmts: 10, ..Knobs::control_flow() });
-                let plan = g.plan();
-                let prog = g.program(&plan);
-                let printed = print_test(&plan.header, &prog, &Layout::random(s));
-                let sigs: Vec<digital_test_runner::Signal> = plan.supplied.iter().map(|x| x.to_real()).collect();
+                let (header, supplied, prog) = if i % 2 == 0 {
+                    let plan = g.plan();
+                    let prog = g.program(&plan);
+                    (plan.header, plan.supplied, prog)
+                } else {
+                    rich_text(&mut g.rng)
+                };
+                let printed = print_test(&header, &prog, &Layout::random(s));
+                // three signal lists: the one that fits, one whose inputs are outputs (clock columns cannot be driven),
+                // one whose outputs are inputs (nothing can be read back): the outcome of binding, error text included, must not vary
+                let lists: Vec<Vec<digital_test_runner::Signal>> = vec![
+                    supplied.iter().map(|x| x.to_real()).collect(),
+                    supplied.iter().map(|x| if x.is_in() { Sig::output(&x.name, x.bits).to_real() } else { x.to_real() }).collect(),
+                    supplied.iter().map(|x| if x.dir == Dir::Out { Sig::input(&x.name, x.bits, Val::N(0)).to_real() } else { x.to_real() }).collect(),
+                ];
+                let bind_all = |p: &Option<ParsedTestCase>| -> Vec<String> {
+                    lists
+                        .iter()
+                        .map(|l| match p.clone().map(|p| p.with_signals(l.clone())) {
+                            None => "no parse".to_string(),
+                            Some(Ok(t)) => format!("ok {:?} {}", t.signals.iter().map(|x| x.name.clone()).collect::<Vec<_>>(), t.verif_dump()),
+                            Some(Err(e)) => format!("err {e:?}"),
+                        })
+                        .collect()
+                };
+                let sigs = lists[0].clone();
                 let first = ParsedTestCase::from_str(&printed.text).ok();
                 let first_tc = first.clone().and_then(|p| p.with_signals(sigs.clone()).ok());
+                let first_binds = bind_all(&first);
+                let first_dbg = format!("{first:?}");
                 for k in 0..6 {
                     let mut rl = vec![];
                     row_lines_of(&prog, &printed, &mut rl);
@@ -336,6 +393,8 @@ pub fn parsegen(prop: &str, seed: u64, runs: usize) -> Vec<J> {
                     let again = ParsedTestCase::from_str(&printed.text).ok();
                     let again_tc = again.clone().and_then(|p| p.with_signals(sigs.clone()).ok());
                     let same = again == first
+                        && format!("{again:?}") == first_dbg
+                        && bind_all(&again) == first_binds
                         && again_tc == first_tc
                         && again_tc.as_ref().map(|t| t.signals.iter().map(|x| x.name.clone()).collect::<Vec<_>>()) == first_tc.as_ref().map(|t| t.signals.iter().map(|x| x.name.clone()).collect::<Vec<_>>())
                         && again_tc.as_ref().map(|t| t.verif_dump()) == first_tc.as_ref().map(|t| t.verif_dump());
@@ -412,4 +471,44 @@ pub fn corpus(seed: u64, n: usize) -> Vec<J> {
         out.push(json!({"id": id + 1, "htoks": htoks, "toks": body, "text": text}));
     }
     out
+}
+
+
+/// A text rich in everything the parser collects by name (several columns first clocked in one and the same row, several
+/// declarations, several device reads inside one expression, many header names): whatever is kept in a hash map shows here.
+fn rich_text(rng: &mut StdRng) -> (Vec<String>, Vec<Sig>, Vec<Stmt>) {
+    use rand::seq::SliceRandom;
+    let nk = rng.gen_range(3..8);
+    let nq = rng.gen_range(3..6);
+    let mut supplied: Vec<Sig> = (1..=nk).map(|i| Sig::input(&format!("K{i}"), 1, Val::N(0))).collect();
+    supplied.push(Sig::input("A", 8, Val::N(0)));
+    supplied.push(Sig::bidir("D", 4, Val::Z));
+    for i in 1..=nq {
+        supplied.push(Sig::output(&format!("Q{i}"), 8));
+    }
+    supplied.shuffle(rng);
+    let mut header: Vec<String> = supplied.iter().filter(|s| s.is_in()).map(|s| s.name.clone()).collect();
+    header.push("D_out".into());
+    header.push("Q1".into());
+    header.shuffle(rng);
+    let mut prog = vec![];
+    let mut order: Vec<usize> = (1..=nq).collect();
+    order.shuffle(rng);
+    for &k in &order {
+        prog.push(Stmt::Declare { name: format!("V{k}"), e: Expr::bin("+", Expr::id(&format!("Q{k}")), Expr::id(&format!("Q{}", k % nq + 1))) });
+    }
+    order.shuffle(rng);
+    let sum = order.iter().fold(Expr::num(1), |a, k| Expr::bin("+", a, Expr::id(&format!("Q{k}"))));
+    let mut id = 0;
+    let mut row = |f: &dyn Fn(&str) -> Entry| {
+        id += 1;
+        Stmt::Row { id, entries: header.iter().map(|h| f(h)).collect() }
+    };
+    // every clock column is first clocked in the same row
+    let e = sum.clone();
+    prog.push(row(&|h| if h.starts_with('K') { Entry::C } else if h == "A" { Entry::Expr(e.clone()) } else if h == "D" { Entry::Z } else { Entry::X }));
+    prog.push(row(&|h| if h.starts_with('K') { Entry::Num(0) } else if h == "A" { Entry::Num(2) } else if h == "D" { Entry::Num(3) } else { Entry::X }));
+    let some_c = rng.gen_range(1..=nk);
+    prog.push(row(&|h| if h.starts_with('K') && h[1..].parse::<usize>().unwrap() <= some_c { Entry::C } else if h.starts_with('K') { Entry::X } else if h == "A" { Entry::Expr(Expr::id("Q2")) } else if h == "D" { Entry::Z } else { Entry::Num(1) }));
+    (header, supplied, prog)
 }
